@@ -537,7 +537,11 @@ class EditStreamDefaults(HTMLHandlerBase):
             if flask.request.form.get(f'drm_{name}', '') != 'on':
                 continue
             loc = flask.request.form.get(f'{name}__drmloc', 'all')
-            drms.append(f'{name}-{loc}')
+            if loc in {'', 'all'}:
+                # all locations is selected by the name of the DRM on its own
+                drms.append(name)
+            else:
+                drms.append(f'{name}-{loc}')
         form['drm'] = ','.join(drms)
         form['events'] = ','.join(flask.request.form.getlist('events'))
         try:
@@ -549,7 +553,13 @@ class EditStreamDefaults(HTMLHandlerBase):
                 return jsonify({'error': f'{err}'}, 400)
             flask.flash(f'Invalid value: {err}', 'error')
             return flask.make_response(self.get(spk), 400)
-        current_stream.defaults = flatten(opts.remove_default_values(defaults))
+        changed = opts.remove_default_values(defaults)
+        if 'drmSelection' in changed:
+            # a set of DrmLocation can not be stored as JSON. The text form is
+            # restored by OptionsRepository.parse_stored_options()
+            changed['drmSelection'] = DrmSelection.to_string(
+                changed['drmSelection'])
+        current_stream.defaults = flatten(changed)
         models.db.session.commit()
         flask.flash('Saved stream defaults', 'success')
         return flask.redirect(flask.url_for('view-stream', spk=current_stream.pk))
